@@ -30,7 +30,7 @@ ASSUMPTIONS = [
     "the same exception class in every process",
 ]
 REQUIRED_COUNTERS = ["documents", "processes", "outputs.compared", "numbered_class_docs", "aimed_docs",
-                     "cli.compared", "cli.output_file_compared", "json.before_vs_after_python", "json.compared", "seeds.distinct", "orders.reversed_and_solo"]
+                     "cli.compared", "cli.output_file_compared", "json.before_vs_after_python", "json.compared", "seeds.distinct", "orders.reversed_and_solo", "processes.optimised", "documents.refused_first"]
 
 
 def plan(tier):
@@ -175,10 +175,10 @@ print(json.dumps(out))
 '''
 
 
-def run_seed(directory, paths, seed):
+def run_seed(directory, paths, seed, flags=()):
     env = dict(os.environ, PYTHONHASHSEED=seed, PYTHONDONTWRITEBYTECODE="1")
     proc = subprocess.run(
-        [bootstrap.PYTHON, "-c", WORKER, bootstrap.REPO] + paths,
+        [bootstrap.PYTHON, *flags, "-c", WORKER, bootstrap.REPO] + paths,
         capture_output=True, text=True, timeout=600, env=env, cwd=directory,
     )
     if proc.returncode != 0:
@@ -239,6 +239,17 @@ def run_shard(ctx):
             continue
         gen_docs.write_files(doc, directory)
         docs.append(doc)
+    if ctx.shard % 4 == 0:
+        # a document the library refuses, first in the batch: what a process does with the documents after it
+        # must not depend on having met it (a refusal that leaves process state behind).  Documents nested
+        # close to the interpreter's recursion limit, where such state would matter most, cost about half a
+        # minute per process and are left to C10 / C20's in-process depth sweeps.
+        refused = {"files": {f"r{ctx.shard}_{os.getpid()}_main.json": {
+            "type": "object", "title": "Refused", "properties": {"x": {"if": {"type": "string"}}}}}}
+        refused["entry"] = next(iter(refused["files"]))
+        gen_docs.write_files(refused, directory)
+        docs.insert(0, refused)
+        ctx.count("documents.refused_first")
     paths = [os.path.join(directory, doc["entry"]) for doc in docs]
     results = {}
     seeds = ctx.params["seeds"]
@@ -257,6 +268,12 @@ def run_shard(ctx):
             results.setdefault("solo", {}).update(solo)
             ctx.count("processes")
         ctx.count("orders.reversed_and_solo")
+        # ... and processes started with the interpreter's optimisation switches (asserts stripped, then
+        # docstrings too): generation from a document must not hinge on either
+        for flag in ("-O", "-OO"):
+            results[f"{seeds[0]}{flag}"] = run_seed(directory, paths, seeds[0], flags=(flag,))
+            ctx.count("processes")
+        ctx.count("processes.optimised")
     ctx.count("seeds.distinct", len(set(seeds)))
     for doc, path in zip(docs, paths):
         ctx.count("documents")
